@@ -21,8 +21,10 @@ import (
 	"fmt"
 	"math/rand/v2"
 	"os"
+	"time"
 	"sort"
 
+	cstypes "github.com/gnolang/gno/tm2/pkg/bft/consensus/types"
 	"github.com/gnolang/gno/tm2/pkg/bft/types"
 
 	"verifharness/internal/simnet"
@@ -97,6 +99,9 @@ func run(c *vf.Ctx) {
 		var k int
 		fmt.Sscan(only, &k)
 		debug = true
+		if os.Getenv("C31_TRACE") != "" {
+			simnet.Trace = func(l string) { fmt.Println("TRACE", l) }
+		}
 		runSchedule(c, k, c.Rng(5000+uint64(k)))
 		return
 	}
@@ -104,6 +109,7 @@ func run(c *vf.Ctx) {
 		runSchedule(c, i, rng)
 	})
 	c.Assume("message signatures are the only authentication: the scheduler may deliver any produced message to any node at any time (gossip relays), so origin-based link faults are subsumed")
+	c.Assume("honest clocks are correct and a height lasts at least the block time iota (any sane timeout_commit): the scheduler fires timeouts at once, so each node is held until the wall clock has passed its last block's time + iota before it acts at the next height")
 	c.Assume("liveness is checked as bounded progress (40 synchronous scheduler rounds per height) with byzantine validators silent; an unbounded 'eventually' cannot be decided by a finite run")
 	c.Assume("byzantine validators are pure signers: equivocating proposals/votes and silence; bogus +2/3 claims (VoteSetMaj23) live in the reactor, which simnet replaces")
 	c.RequireCounter("schedules", int64(n))
@@ -285,6 +291,47 @@ func runSchedule(c *vf.Ctx, id int, rng *rand.Rand) {
 						}
 					}
 				}
+				if rs.Votes != nil && r >= 1 && r <= 6 {
+					for _, vs := range []interface{ GetByIndex(int) *types.Vote }{rs.Votes.Prevotes(r), rs.Votes.Precommits(r)} {
+						for vi := 0; vi < 4; vi++ {
+							if v := vs.GetByIndex(vi); v != nil {
+								pc += fmt.Sprintf(" [%d:%v r%d %X]", vi, v.Type, v.Round, v.BlockID.Hash)
+							}
+						}
+					}
+					if rs.ProposalBlock != nil && r == 2 {
+						for _, v := range rs.ProposalBlock.LastCommit.Precommits {
+							if v != nil {
+								pc += fmt.Sprintf("\n   lastcommit[%d] r%d %X ts=%v", v.ValidatorIndex, v.Round, v.BlockID.Hash, v.Timestamp)
+							}
+						}
+						pc += fmt.Sprintf("\n   now=%v lastBlockTime=%v gen=%v", time.Now().UTC(), nd.CS.GetState().LastBlockTime, net.GenTime)
+					}
+					if rs.ProposalBlock != nil {
+						pc += fmt.Sprintf(" PB=%X t=%v validate=%v", rs.ProposalBlock.Hash(), rs.ProposalBlock.Time, nd.CS.GetState().ValidateBlock(rs.ProposalBlock))
+					}
+				}
+				if rounds == 5 && rs.Votes != nil {
+					for rr := 0; rr <= r; rr++ {
+						if x := rs.Votes.Precommits(rr); x != nil {
+							for vi := 0; vi < x.Size(); vi++ {
+								if v := x.GetByIndex(vi); v != nil {
+									pc += fmt.Sprintf("\n     pc r%d [%d] %X", rr, vi, v.BlockID.Hash)
+								}
+							}
+							m23, ok23 := x.TwoThirdsMajority()
+							pc += fmt.Sprintf("\n     pc r%d maj23=%v %X", rr, ok23, m23.Hash)
+						}
+					}
+					if sc := nd.BS.LoadSeenCommit(h - 1); sc != nil {
+						pc += fmt.Sprintf("\n     seencommit(%d) round=%d block=%X", h-1, sc.Round(), sc.BlockID.Hash)
+						for _, v := range sc.Precommits {
+							if v != nil {
+								pc += fmt.Sprintf(" [%d:%X]", v.ValidatorIndex, v.BlockID.Hash[:min(4, len(v.BlockID.Hash))])
+							}
+						}
+					}
+				}
 				th, tr, ts, tok := nd.CS.VerifTickerPending()
 				fmt.Printf("sync round %d node %d store=%d hrs=%d/%d/%v prop=%v locked=%v timeout=%v(%d/%d/%v) prevotes[%s] precommits[%s]\n", rounds, nd.Index, nd.BS.Height(), h, r, st, rs.Proposal != nil, rs.LockedBlock != nil, tok, th, tr, ts, pv, pc)
 			}
@@ -308,7 +355,24 @@ func runSchedule(c *vf.Ctx, id int, rng *rand.Rand) {
 		for _, nd := range honest {
 			hs = append(hs, nd.BS.Height())
 		}
-		m.viol("no-bounded-progress", "after switching to timely delivery honest nodes did not all commit a further height within %d scheduler rounds (used %d; store heights %v, target %d)", progressBound, rounds, hs, target)
+		// diagnosis of the stall: an honest node that holds +2/3 precommits for a block at its own
+		// height but is not in the commit step can only have been pulled out of that step
+		key, why := "no-bounded-progress", ""
+		for _, nd := range honest {
+			rs := nd.CS.GetRoundState()
+			if rs.Votes == nil || rs.Step >= cstypes.RoundStepCommit {
+				continue
+			}
+			for r := 0; r <= rs.Round; r++ {
+				if pcs := rs.Votes.Precommits(r); pcs != nil {
+					if bid, ok := pcs.TwoThirdsMajority(); ok && len(bid.Hash) != 0 {
+						key = "no-bounded-progress:decided-node-left-commit-step"
+						why = fmt.Sprintf("; node %d is at %d/%d/%v although it holds +2/3 precommits of round %d for block %X", nd.Index, rs.Height, rs.Round, rs.Step, r, bid.Hash)
+					}
+				}
+			}
+		}
+		m.viol(key, "after switching to timely delivery honest nodes did not all commit a further height within %d scheduler rounds (used %d; store heights %v, target %d)%s", progressBound, rounds, hs, target, why)
 	}
 	m.observe()
 	m.finalChecks()
@@ -316,6 +380,7 @@ func runSchedule(c *vf.Ctx, id int, rng *rand.Rand) {
 	nt := net.MaxRound >= 1 || byzDelivered > 0
 	c.Case(fmt.Sprintf("%x", m.sig), nt)
 	c.Count("schedules", 1)
+	c.Count("wall_clock_paced_ms", int(net.Paced.Milliseconds()))
 	c.Count("steps", net.Steps)
 	c.Count("timeouts_fired", net.Timeouts)
 	c.Count("sync_rounds_used", rounds)
